@@ -52,12 +52,17 @@ def run(tier):
     env.update(common.SAN_ENV)
     env["TSAN_OPTIONS"] = "halt_on_error=0:second_deadlock_stack=1:exitcode=0:history_size=4"
 
+    timeouts = [0]
+
     def go(job):
         fl, binary, T, iters, seed, stag = job
+        if timeouts[0] >= 2:  # two runs hit the (100x) time bound: the remaining ones are not started (inconclusive, like a timeout)
+            return -999, "", "skipped after two timeouts"
         try:
-            r = subprocess.run([binary, pf, str(T), str(iters), str(seed), str(stag)], capture_output=True, text=True, env=env, timeout=1200, errors="replace")
+            r = subprocess.run([binary, pf, str(T), str(iters), str(seed), str(stag)], capture_output=True, text=True, env=env, timeout=300, errors="replace")
             return r.returncode, r.stdout, r.stderr
         except subprocess.TimeoutExpired:
+            timeouts[0] += 1
             return -999, "", "timeout"
 
     # TSan runs are CPU heavy: run a few in parallel
